@@ -118,6 +118,13 @@ impl SecondaryStorage {
         &self.catalog
     }
 
+    /// Verification hook: see `VersionManager::verif_state`.
+    #[cfg(feature = "verif")]
+    #[allow(clippy::type_complexity)]
+    pub fn verif_state(&self) -> (u64, Vec<(u64, Vec<(u32, u32)>)>, Vec<(u64, Vec<(u32, u32)>)>) {
+        self.version.verif_state()
+    }
+
     pub async fn spawn_compactor(self: &Arc<Self>) {
         let (tx, rx) = tokio::sync::oneshot::channel();
         let storage = self.clone();
